@@ -965,8 +965,6 @@ func SpecContains(s string, sub string) bool { return false }
 // resumes from it when it is ahead of the mode-specific state (bisyncStartPoint, "root
 // override"). The seed of the new namespace is therefore chosen after consulting the root
 // checkpoint and is never behind it.
-//@ func checkpoint.LoadBisyncLatestStartRecord(cli, checkpointName, slots, runIDs) (best, count, err)
-//@   trusted abstract bookkeeping store
 
 //@ func syncer.loadBisyncMigrationSeed
 //@   arith int
